@@ -382,14 +382,15 @@ def check_range_guard(ctx, rule, fi, param, reject, exc, what, env=None, accept_
     return where
 
 
-def check_pow2_guard(ctx, rule, fi, assumptions=None, extra=None, min_m=1, param_classes=None):
-    """M is only tested by the power-of-two predicate: decided by interpreting the function for M = 1..17 and 24, 32, 48, 64"""
+def check_pow2_guard(ctx, rule, fi, assumptions=None, extra=None, min_m=1, param_classes=None, nonpositive=False):
+    """M is only tested by the power-of-two predicate: decided by interpreting the function for M = 1..17 and 24, 32, 48, 64
+    (`nonpositive`: also 0, -2, -4 - not powers of two either; `0 & -1 == 0` lets 0 through the usual bit test)"""
     wrong, exc_bad, where = [], [], fi.node
-    for m in list(range(1, 18)) + [24, 32, 48, 64]:
+    for m in ([0, -2, -4] if nonpositive else []) + list(range(1, 18)) + [24, 32, 48, 64]:
         pv = dict(extra or {})
         pv["M"] = Form.num(m)
         rej, e, out, _it = _concrete_run(ctx.pkg, fi, pv, assumptions or {}, param_classes)
-        pow2 = m & (m - 1) == 0 and m >= min_m
+        pow2 = m >= 1 and m & (m - 1) == 0 and m >= min_m
         if rej is None:
             ctx.unknown(rule, fi, fi.node, f"{fi.qualname}: M power-of-two guard", f"not decided for M = {m}: a test on the path could not be evaluated")
             return
